@@ -713,6 +713,36 @@ fn break_a_request_on_this_thread() {
     crate::script::set_write_fail_after(None);
 }
 
+/// A session that has been used: its own settings differ from those the case's request is given afterwards in
+/// every respect (a stale proxy where the request has none and the other way round, following, compression,
+/// limits), and it has already sent a request to the URL of the case under those settings. What a request is
+/// given itself overrides the session's values, and nothing the session did before decides where this request
+/// goes (seed C08-seed11: a cache of proxy decisions per host that is shared by the copies of the settings).
+fn session_with_a_past(case: &SendCase) -> attohttpc::Session {
+    let mut sess = attohttpc::Session::new();
+    let stale = if case.proxy.http.is_some() || case.proxy.https.is_some() {
+        attohttpc::ProxySettings::builder().build()
+    } else {
+        let p = Url::parse("http://stale-proxy.test:3199").ok();
+        attohttpc::ProxySettings::builder().http_proxy(p.clone()).https_proxy(p).build()
+    };
+    sess.proxy_settings(stale);
+    sess.follow_redirects(!case.follow);
+    sess.max_redirections(case.max_redirections + 3);
+    sess.max_headers(case.max_headers + 7);
+    sess.allow_compression(!case.compress);
+    verif_hooks::set_dial_factory(Box::new(|_info| {
+        let (script, _log) = Script::new(vec![Seg::Data(b"HTTP/1.1 200 OK\r\nContent-Length: 0\r\n\r\n".to_vec())]);
+        Some(Ok(Box::new(script) as Box<dyn verif_hooks::Transport>))
+    }));
+    verif_hooks::set_plain_tunnels(false);
+    let url = case.url.clone();
+    let _ = catch_unwind(AssertUnwindSafe(|| sess.get(&url).send().and_then(|r| r.bytes()).map(|_| ())));
+    verif_hooks::clear_dial_factory();
+    let _ = verif_hooks::take_tunnel_log();
+    sess
+}
+
 pub fn run_send(case: &SendCase) -> SendObs {
     if (case.url.len() + case.method.len() * 3 + case.pre.len() + case.hops.len()) % 4 == 0 {
         break_a_request_on_this_thread();
@@ -740,7 +770,9 @@ pub fn run_send(case: &SendCase) -> SendObs {
         (1, "PATCH") => attohttpc::patch(u),
         (1, "TRACE") => attohttpc::trace(u),
         (2, m) => {
-            let sess = attohttpc::Session::new();
+            // every other time the session has a past: settings that are the opposite of what the request is
+            // given below, and a request already sent to the very URL of this case
+            let sess = if (case.url.len() + case.hops.len()) % 2 == 0 { session_with_a_past(case) } else { attohttpc::Session::new() };
             match m {
                 "GET" => sess.get(u),
                 "POST" => sess.post(u),
